@@ -6,6 +6,7 @@ From PV Require Import Extract.RunC19.
 From PV Require Import Extract.RunC12.
 From PV Require Import Extract.RunC09.
 From PV Require Import Extract.RunC13.
+From PV Require Import Extract.RunC16.
 Import ListNotations.
 Local Open Scope N_scope.
 
@@ -84,5 +85,8 @@ Definition run (cmd : N) (arg : sx) : sx :=
   | 134 => run_c13_4 arg
   | 135 => run_c13_5 arg
   | 136 => run_c13_6 arg
+  | 160 => run_c16_build arg
+  | 161 => run_c16_unsorted arg
+  | 162 => run_c16_keys arg
   | _ => L [A 999999]
   end.
